@@ -278,6 +278,20 @@ def run_case(case):
             if prob.get("edge_param_how"):
                 how_ = next(iter(prob["edge_param_how"].values()))
                 res.count("scope-by-tip-names:" + ("stem" if how_.get("stem") else "") + ("+clade" if how_.get("clade", not how_.get("stem", False)) else ""))
+            if model in M.CODON and i % 3 == 2 and "-" not in "".join(prob["aln"].values()):
+                prob["recode_gaps"] = False  # '?' inside a word goes through resolve_ambiguity, not through N
+                res.count("codon-model-without-gap-recoding")
+                table_ = M.codon_table(prob.get("gc", 1))
+                inj = random.Random(i)
+                for _try in range(40):  # one partly missing word ('A?C': compatible with up to 4 words, not with all)
+                    nm_ = inj.choice(sorted(prob["aln"]))
+                    k_ = 3 * inj.randrange(1, max(2, len(prob["aln"][nm_]) // 3))
+                    w_ = prob["aln"][nm_][k_ : k_ + 3]
+                    p_ = inj.randrange(3)
+                    if len(w_) == 3 and set(w_) <= set("ACGT") and all(table_[w_[:p_] + x + w_[p_ + 1 :]] != "*" for x in "ACGT"):
+                        prob["aln"][nm_] = prob["aln"][nm_][:k_] + w_[:p_] + "?" + w_[p_ + 1 :] + prob["aln"][nm_][k_ + 3 :]
+                        res.count("partly-missing-word")
+                        break
             if i % 4 == 1:
                 prob["early_queries"] = True  # the function is queried (and refuses) before its alignment is given
                 res.count("function-queried-before-alignment")
@@ -406,5 +420,5 @@ def decide_discrete(res, rng, model):
 
 
 def required(counters, tier):
-    need = ["hmm-bins", "gamma-bin-rates-checked:unequal-bprobs", "scope-by-tip-names:stem", "scope-by-tip-names:+clade", "function-queried-before-alignment", "polytomy", "with-ambiguity", "scoped", "binned", "binned-unequal-bprobs", "solved-P", "zero-length-edge", "all-columns-sum", "L2-rate-matrix", "L3-exponential", "L1-pruning"]
+    need = ["hmm-bins", "gamma-bin-rates-checked:unequal-bprobs", "scope-by-tip-names:stem", "partly-missing-word", "scope-by-tip-names:+clade", "function-queried-before-alignment", "polytomy", "with-ambiguity", "scoped", "binned", "binned-unequal-bprobs", "solved-P", "zero-length-edge", "all-columns-sum", "L2-rate-matrix", "L3-exponential", "L1-pruning"]
     return [n for n in need if not counters.get(n)]
